@@ -216,7 +216,7 @@ impl<T> OptionParser<T> {
             let check_disambiguation = state.comp_ref().is_none();
 
             #[cfg(not(feature = "autocomplete"))]
-            let check_disambiguation = false;
+            let check_disambiguation = true;
 
             if check_disambiguation {
                 return Err(msg.render(&state, &self.inner.meta()));
